@@ -1,3 +1,4 @@
 import Lcapy.Driver.Loop
 import Lcapy.Driver.C17
-def main : IO Unit := Lcapy.Driver.runDriver [Lcapy.Driver.C17.handle]
+import Lcapy.Driver.C17Sim
+def main : IO Unit := Lcapy.Driver.runDriver [Lcapy.Driver.C17.handle, Lcapy.Driver.C17Sim.handle]
